@@ -27,12 +27,15 @@ META = {
               "Newton: psi an uninterpreted function, at most 12 iterations (the code raises after 11)",
     "out": "accuracy of solve_ivp, convergence of Newton, spline evaluation (the kernels' contracts are assumed); the 'integrate' and 'none' methods have no tolerance by design; "
            "the line-search method's brentq tolerance is in the line parameter, not in psi",
-    "assumptions": ["solve_ivp(f, (t0,t1), y0, t_eval) returns y[:,k] = Phi(t_eval[k]) provided t_eval lies in the span and is sorted in the direction of integration (asserted at the stub)",
+    "assumptions": ["solve_ivp(f, (t0,t1), y0, t_eval) returns y[:,k] = Phi(t_eval[k]) provided t_eval lies in the span and is sorted in the direction of integration, "
+                    "t0 is the start psi, y0 the start point and f(psi, x) = (f_R(x), f_Z(x)) (all asserted at the stub; f_R, f_Z uninterpreted)",
                     "psi is a function of position (uninterpreted)"],
 }
 
 PhiR = z3.Function("PhiR", z3.RealSort(), z3.RealSort())
 PhiZ = z3.Function("PhiZ", z3.RealSort(), z3.RealSort())
+FRu = z3.Function("f_R", z3.RealSort(), z3.RealSort(), z3.RealSort())
+FZu = z3.Function("f_Z", z3.RealSort(), z3.RealSort(), z3.RealSort())
 
 
 def _mk_follow(N, increasing):
@@ -63,6 +66,15 @@ def _mk_follow(N, increasing):
             else:
                 ok = all(min(t0, t1) <= a <= max(t0, t1) for a in te) and (te == sorted(te) if t1 >= t0 else te == sorted(te, reverse=True))
             env.claim("solve_ivp_precondition(t_eval_in_span_and_ordered)", ok)
+            # the problem handed to the integrator: dx/dpsi = (f_R(x), f_Z(x)), x(psi_start) = p0
+            env.claim_eq("integration_starts_at_psi_start", t0, pS)
+            env.claim_eq("initial_state_is_p0(R)", y0[0], p0.R)
+            env.claim_eq("initial_state_is_p0(Z)", y0[1], p0.Z)
+            tq, Rq, Zq = env.real("rhs_probe_psi"), env.real("rhs_probe_R"), env.real("rhs_probe_Z")
+            rhs = f(tq, (Rq, Zq))
+            wantR, wantZ = f_R(Rq, Zq), f_Z(Rq, Zq)
+            env.claim_eq("rhs=(f_R(x),f_Z(x))[R]", rhs[0], wantR)
+            env.claim_eq("rhs=(f_R(x),f_Z(x))[Z]", rhs[1], wantZ)
             y = numpy.empty((2, len(te)), dtype=object if sym else float)
             for k, t in enumerate(te):
                 y[0, k], y[1, k] = phi(t)
@@ -70,8 +82,20 @@ def _mk_follow(N, increasing):
 
         psivals = numpy.array(ps, dtype=object if sym else float)
         p0 = Point2D(env.real("R0"), env.real("Z0"))
+        if sym:
+            def f_R(R, Z):
+                return SymReal(FRu(core.lift_real(R), core.lift_real(Z)))
+
+            def f_Z(R, Z):
+                return SymReal(FZu(core.lift_real(R), core.lift_real(Z)))
+        else:
+            def f_R(R, Z):
+                return 0.25 * R - 0.5 * Z + 1.0
+
+            def f_Z(R, Z):
+                return 0.75 * R + 0.125 * Z - 2.0
         with patched((mesh_mod, "solve_ivp", solve_ivp_stub)):
-            out = mesh_mod.followPerpendicular(None, p0, pS, f_R=None, f_Z=None, psivals=psivals, rtol=1e-8, atol=1e-8, maxits=10, recover=False)
+            out = mesh_mod.followPerpendicular(None, p0, pS, f_R=f_R, f_Z=f_Z, psivals=psivals, rtol=1e-8, atol=1e-8, maxits=10, recover=False)
         env.witness("returned")
         env.claim("one_point_per_psival", len(out) == N)
         for k in range(min(N, len(out))):
